@@ -39,9 +39,15 @@ func (o *OvsMap) UnmarshalJSON(b []byte) (err error) {
 	var oMap []interface{}
 	o.GoMap = make(map[interface{}]interface{})
 	if err := json.Unmarshal(b, &oMap); err == nil && len(oMap) > 1 {
-		innerSlice := oMap[1].([]interface{})
+		innerSlice, ok := oMap[1].([]interface{})
+		if !ok {
+			return &json.UnmarshalTypeError{Value: reflect.ValueOf(oMap).String(), Type: reflect.TypeOf(*o)}
+		}
 		for _, val := range innerSlice {
-			f := val.([]interface{})
+			f, ok := val.([]interface{})
+			if !ok || len(f) != 2 {
+				return &json.UnmarshalTypeError{Value: reflect.ValueOf(oMap).String(), Type: reflect.TypeOf(*o)}
+			}
 			var k interface{}
 			switch f[0].(type) {
 			case []interface{}:
